@@ -83,6 +83,21 @@ let next_op2 r =
   | "minus" -> OMinus
   | _ -> raise (Parse_error "op2")
 
+let rec next_expr r : expr =
+  match next r with
+  | "L" ->
+      let d = next_n r in
+      let l = next_ranges r in
+      ELeaf (d, l)
+  | "A" -> let a = next_expr r in let b = next_expr r in EOp2 (OAnd, a, b)
+  | "O" -> let a = next_expr r in let b = next_expr r in EOp2 (OOr, a, b)
+  | "X" -> let a = next_expr r in let b = next_expr r in EOp2 (OXor, a, b)
+  | "M" -> let a = next_expr r in let b = next_expr r in EOp2 (OMinus, a, b)
+  | "N" -> ENot (next_expr r)
+  | "D" -> let t = next_n r in EDeg (t, next_expr r)
+  | "I" -> let _ = next r in EId (KCheck, next_expr r)
+  | _ -> raise (Parse_error "expr")
+
 (* ---------- printers ---------- *)
 let buf = Buffer.create 4096
 let out_s s = Buffer.add_string buf s
@@ -133,6 +148,37 @@ let handle (r : reader) : unit =
       let a = next_ranges r in
       out_s "OK";
       out_bool (valid_mocb q w d a)
+  | "QRY" ->
+      (* QRY <ranges M> <nq> (a b)* -> per query: contains_val(a) contains_range intersects_range width *)
+      let m = next_ranges r in
+      let qs = next_ranges r in
+      out_s "OK";
+      List.iter
+        (fun (a, b) ->
+          out_bool (contains_val m a);
+          out_bool (contains_range m a b);
+          out_bool (intersects_range m a b);
+          out_n (width m a b))
+        qs
+  | "QMOC" ->
+      (* QMOC <ranges A> <ranges B> -> intersects, A contains B, msum A, overlapped_by A B *)
+      let a = next_ranges r in
+      let b = next_ranges r in
+      out_s "OK";
+      out_bool (intersects a b);
+      out_bool (contains a b);
+      out_n (msum a);
+      out_ranges (overlapped_by a b)
+  | "CANON" ->
+      let l = next_ranges r in
+      out_s "OK";
+      out_ranges (canon_of l)
+  | "EXPR" ->
+      let q = next_qty r in
+      let w = next_n r in
+      let e = next_expr r in
+      out_s "OK";
+      out_moc (eval q w e)
   | k -> out_s ("ERR unknown-kind " ^ k)
 
 let () =
